@@ -181,7 +181,15 @@ def handle (j : Json) : Except String Json := do
       | some (_, .num v) => Json.num (v : Nat) | _ => Json.null
     let routeBits : Json := match (findTypedef p.items "route_t").bind logicVecBits? with
       | some v => Json.num (v : Nat) | none => Json.null
+    -- the declared dimension `[h:0]` read as h + 1 (so floogen's `[-1:0]` for a zero-bit field reads as 0)
+    let decl (t : String) : Json :=
+      match ((findTypedef p.items t).map (·.dims) : Option (List (Sv.Expr × Sv.Expr))) with
+      | some [(Sv.Expr.num h, Sv.Expr.num 0)] => Json.num ((h + 1 : Nat))
+      | some [(Sv.Expr.neg (Sv.Expr.num 1), Sv.Expr.num 0)] => Json.num (0 : Nat)
+      | some [] => Json.num (1 : Nat)
+      | _ => Json.null
     return Json.mkObj [("ok", true), ("num_endpoints", enumMember "ep_id_e" "NumEndpoints"), ("id_bits", bits "id_t"),
+      ("id_decl", decl "id_t"), ("x_decl", decl "x_bits_t"), ("y_decl", decl "y_bits_t"),
       ("x_bits", bits "x_bits_t"), ("y_bits", bits "y_bits_t"), ("route_bits", routeBits), ("sam_rules", samN)]
   | "manifest" =>
     return Json.mkObj [("ok", true), ("holds", C20.holds Gen.manifestFacts Gen.hwFacts),
